@@ -2,7 +2,7 @@
    run_sched fuel sched (start s rpcs): the RPCs run as threads from state s; scheduling points are datastore primitive
    calls and lock acquisitions; `sched` is ANY list of thread ids (a disabled choice falls back to the first enabled). *)
 From VZ Require Import Base.Prelude Base.XFloat Model.Metadata Model.Service Model.ServiceEq Model.Conc
-                       Proofs.ConcP Proofs.DeadlockP Proofs.IsolationP Proofs.LockCoverP.
+                       Proofs.ConcP Proofs.DeadlockP Proofs.IsolationP Proofs.LockCoverP Proofs.StableP.
 From VZ Require Gen.ServiceLocks Model.LockTable.
 
 (* no two trials with one id: for any number of concurrent calls, any schedule, any prefix *)
@@ -36,6 +36,18 @@ Print Assumptions C04_writes_are_made_under_their_lock.
 Theorem C04_mutual_exclusion : forall s rpcs fuel sched, exclusive (run_sched fuel sched (start s rpcs)).
 Proof. intros. apply mutual_exclusion. Qed.
 Print Assumptions C04_mutual_exclusion.
+
+(* NO LOST UPDATE.  In every configuration reached by any schedule of any number of calls: while a thread holds the
+   per-study lock of study k, no step of any other thread changes the study record, the trials or the metadata of k.  What
+   a handler read under the lock is therefore still what is stored when it writes back.  (The deletion / re-creation of the
+   whole study takes no study lock and is excluded: known finding C04-guard-outside-lock.) *)
+Theorem C04_no_lost_update : forall s rpcs fuel sched i j ti tj k c',
+  let c := run_sched fuel sched (start s rpcs) in
+  i <> j -> nth_error (c_threads c) i = Some ti -> existsb (lock_eqb (LStudy k)) (th_held ti) = true ->
+  nth_error (c_threads c) j = Some tj -> ~ is_study_delete_or_create k (th_prog tj) ->
+  cstep c j = Some c' -> protected_part k (c_state c') = protected_part k (c_state c).
+Proof. exact no_lost_update. Qed.
+Print Assumptions C04_no_lost_update.
 
 (* THE SAME FACTS ABOUT THE SOURCE.  Gen/ServiceLocks.v is regenerated from vizier_service.py at every run: for every RPC
    method its datastore call sites in source order with the servicer locks that lexically enclose them, and how its
